@@ -49,6 +49,7 @@ func (c *c19) Cases(tier string, seed int64) []core.Case {
 	nsets := map[string]int{"quick": 1, "thorough": 10}[tier]
 	parts := 8
 	cs = append(cs, core.MkCase("fixed-absurd-slice-size", c19Params{Seed: 5, Fmt: "par2", Family: "fixed-absurd-slice-size", Damage: "intact", Parts: 1}))
+	cs = append(cs, core.MkCase("fixed-all-files-empty", c19Params{Seed: 6, Fmt: "par2", Family: "fixed-all-files-empty", Damage: "intact", Parts: 1}))
 	for s := 0; s < nsets; s++ {
 		sd := r.Int63()
 		for _, dmg := range []string{"intact", "one-missing", "one-corrupt"} {
@@ -598,10 +599,54 @@ func (c *c19) runFixedAbsurdSlice(r *core.R) {
 	r.Sample(map[string]interface{}{"family": "fixed-absurd-slice-size", "sizes": []string{"2^62", "2^63-4", "2^50"}})
 }
 
+// runFixedAllEmpty: a conformant-looking set in which every protected file
+// is empty (length 0, no slice checksums) and a recovery file with one
+// well-formed recovery packet: there is nothing to code over.
+func (c *c19) runFixedAllEmpty(r *core.R) {
+	for _, nf := range []int{1, 2, 3} {
+		for _, state := range []string{"present", "first-deleted", "first-has-content"} {
+			root, err := os.MkdirTemp("", "c19E-")
+			if err != nil {
+				r.Inconclusive("tempdir: %v", err)
+				return
+			}
+			dir := filepath.Join(root, "set")
+			os.MkdirAll(dir, 0755)
+			var in []par2rw.InFile
+			for i := 0; i < nf; i++ {
+				in = append(in, par2rw.InFile{Name: fmt.Sprintf("empty%d.bin", i), Data: []byte{}})
+				os.WriteFile(filepath.Join(dir, in[i].Name), nil, 0644)
+			}
+			switch state {
+			case "first-deleted":
+				os.Remove(filepath.Join(dir, in[0].Name))
+			case "first-has-content":
+				os.WriteFile(filepath.Join(dir, in[0].Name), []byte("no longer empty"), 0644)
+			}
+			rs := par2rw.BuildSet(64, in)
+			idx := filepath.Join(dir, "arch.par2")
+			os.WriteFile(idx, par2rw.Serialize(append([]par2rw.Packet{rs.CreatorPacket("ref")}, rs.Critical()...)), 0644)
+			for e := 0; e < 2; e++ {
+				rv := par2rw.Packet{SetID: rs.SetID, Type: par2rw.TypeRecv, Body: par2rw.Recv{Exp: uint32(e), Data: make([]byte, 64)}.Body()}
+				os.WriteFile(filepath.Join(dir, fmt.Sprintf("arch.vol%02d+01.par2", e)), par2rw.Serialize(append(append([]par2rw.Packet{}, rs.Critical()...), rv, rs.CreatorPacket("ref"))), 0644)
+			}
+			j := &c19Judge{fmt: "par2", dir: dir, idx: idx, root: root}
+			j.run(r, fmt.Sprintf("%d protected files, all of length 0 with empty checksum packets, two recovery blocks; %s", nf, state))
+			r.Key("fixed-all-empty|%d|%s", nf, state)
+			os.RemoveAll(root)
+		}
+	}
+	r.Sample(map[string]interface{}{"family": "fixed-all-files-empty", "file_counts": []int{1, 2, 3}})
+}
+
 func (c *c19) Run(cs core.Case) core.Result {
 	var p c19Params
 	core.Decode(cs, &p)
 	r := core.NewR(cs)
+	if p.Family == "fixed-all-files-empty" {
+		c.runFixedAllEmpty(r)
+		return r.Done()
+	}
 	if p.Family == "fixed-absurd-slice-size" {
 		c.runFixedAbsurdSlice(r)
 		return r.Done()
